@@ -707,3 +707,26 @@ func S4w(tier string) *Scenario {
 	s.Name = "S4w-orderbook-4-levels"
 	return s
 }
+
+// S10p: extreme parameters. Governance (the only signer MsgUpdateParams accepts) sets the extension
+// period to a huge value; a batch auction then reaches an end time at which it must be extended.
+// Whatever the node accepted must not make a block fail.
+func S10p() *Scenario {
+	cfg := world.Config{Balances: stdBalances(), Params: params("", "", 1)}
+	pre := []Op{
+		{Kind: "create_batch", Signer: "auc1", StartPrice: "1", MinPrice: "0.5", Sell: "4acoin", PayDenom: "bcoin", StartK: 0, EndK: 2, MaxExt: 2, Rate: "0.5", Sched: sched(5, 6)},
+		{Kind: "add_allowed", AID: 0, Bidder: "bid1", Max: "4"},
+	}
+	al := &Alphabet{
+		Bidders: []string{"bid1"}, BatchPrices: []string{"1"}, ManyAmts: []string{"1"},
+		ParamUpdates: []Op{
+			{Kind: "update_params", Authority: "gov", ExtPeriod: 4294967295},
+			{Kind: "update_params", Authority: "gov", ExtPeriod: 4000000},
+			{Kind: "update_params", Authority: "gov", ExtPeriod: 3650},
+			{Kind: "update_params", Authority: "gov", ExtPeriod: 0},
+		},
+		MaxK: 4, BlockStops: []int{2, 3, 4},
+	}
+	bud := Budget{"bid": 1, "block": 3, "params": 2, "tick": 1}
+	return scenFrom("S10p-extreme-params", cfg, pre, bud, al, nil)
+}
